@@ -6,16 +6,16 @@ hooks_commits = ["54f3e88", "282fbb2", "529567f"]
 CHECKS = {
  # id: (category, technique, text, note, design_ref)
  "C04": ("exploration", "runtime monitoring: independent reference controller (refctl) verifying every proof/signature/key against a real transport",
-         "Per configuration a real IP transport is started and an independently written controller performs a wrong-code attempt, full pair-setup (server proof, M6 decryption, accessory signature verified), pair-verify (M2 verified) and encrypted requests of one to many frames with three frame-split policies; held on the configurations executed (100 quick / 3000 thorough).",
+         "Per configuration a real IP transport is started and an independently written controller performs a wrong-code attempt, full pair-setup (server proof, M6 decryption, accessory signature verified), pair-verify (M2 verified) and encrypted requests of one to many frames with three frame-split policies; held on the configurations executed (100 quick / 3000 thorough); every third configuration pairs again under the same identifier with a new key pair and verifies with it.",
          "trusted base: Go runtime, x/crypto primitives, crypto/ed25519, refctl (self-tested against RFC 5869, RFC 3526 prime formula, own SRP server); SRP numbers in minimal-length encoding like hc", "DESIGN.md §5 C04"),
  "C05": ("exploration", "runtime monitoring: enumerated stream alterations against a frame-prefix oracle, directly on Decrypt and through hap.Connection over a scripted net.Conn",
-         "Every single-bit flip, every truncation offset, every permutation/duplication/deletion of frames, reflection, cross-session and cross-counter replays of reference-framed streams at several counter positions; oracle: released plaintext is an unmodified frame prefix and an error (or a closed connection) is reported once the altered frame has arrived.",
+         "Every single-bit flip, every truncation offset, every permutation/duplication/deletion of frames, reflection, cross-session and cross-counter replays, forged frames (length field 0, 1, 16, 17, 1024) inserted at and substituted for every frame of reference-framed streams at several counter positions; oracle: released plaintext is an unmodified frame prefix and an error (or a closed connection) is reported once the altered frame has arrived.",
          "trusted base: x/crypto chacha20poly1305, refctl framing", "DESIGN.md §5 C05"),
  "C06": ("exploration", "runtime monitoring: byte-identity with an independent reference framing, differential decrypt both ways, reader-mode fuzzing",
-         "hc's Encrypt output must equal the reference framing byte for byte (pins frame size, length encoding, nonce layout, key labels, AAD, counter continuity) for all payload lengths 0..1100 + boundaries (quick) / 0..4097 exhaustively + sampled to 64 KiB (thorough), 8 reader modes, sequences of messages.",
+         "hc's Encrypt output must equal the reference framing byte for byte (pins frame size, length encoding, nonce layout, key labels, AAD, counter continuity) for all payload lengths 0..1100 + boundaries (quick) / 0..4097 exhaustively + sampled to 64 KiB (thorough), 8 reader modes, sequences of messages; long sessions across the 2^8 / 2^16 (thorough 2^17, 2^20) frame-counter boundaries; full-duplex use of one session; queued use (several results sealed / opened before any is read out, caller buffers reused).",
          "trusted base: x/crypto chacha20poly1305, refctl framing/HKDF (self-tested)", "DESIGN.md §5 C06"),
  "C07": ("exploration", "runtime monitoring: online trace checker over a scripted net.Conn (segmentation, idle periods, buffer sizes) + delay-injected handovers on a real transport",
-         "Harness A: thousands of scripted segmentations incl. every single cut offset of base streams, idle periods and caller buffer sizes, with an online prefix / no-EOF / promptness / bounded-completion oracle. Harness B: pair-verify handovers under natural, late-abort and late-background-read schedules (delay hooks), three back-to-back requests each; unanswered decided by bounded progress on other connections.",
+         "Harness A: thousands of scripted segmentations incl. every single cut offset of base streams, idle periods and caller buffer sizes, with an online prefix / no-EOF / promptness / bounded-completion oracle. Harness B: pair-verify handovers under natural, late-abort and late-background-read schedules (delay hooks), three back-to-back requests each, then a repeated pair-verify on the encrypted connection under every schedule; unanswered decided by bounded progress on other connections; empty read buffers, reader reuses its buffer; floors per hook point.",
          "trusted base: refctl framing; hooks only widen schedules (4 points in hap/connection.go)", "DESIGN.md §5 C07"),
  "C08": ("exploration", "runtime monitoring: offline stream-order checker with unique-id payloads over recorded concurrent Write histories + Go race detector on the same workload",
          "2..16 goroutines write unique-id payloads of 1..3 frames to one hap.Connection over TCP, a scripted and a slow socket, with PRNG delays between sealing and the socket write; the captured stream must parse into frames authenticating at consecutive counters, payloads complete, exactly once, respecting real-time order; race reports filtered to the write path count as violations; floors on overlapping Write calls and distinct arrival orders.",
@@ -27,16 +27,16 @@ CHECKS = {
          "All tags 0..255, all lengths 0..1024 for several tags, long values to 70000 bytes, sequences of sets with repeated/interleaved tags, the caller overwrites its buffer right after every SetBytes; parser inputs: exhaustive tiny inputs, random, every truncation and length-byte mutation of valid encodings.",
          "trusted base: refctl TLV8 codec (self-tested)", "DESIGN.md §5 C16"),
  "C18": ("exploration", "runtime monitoring: model-based history checking (map model) with in-process and child-process reopen, witness shrinking",
-         "Generated histories of Set/Get/Delete/KeysWithSuffix and SaveEntity/EntityWithName/DeleteEntity/Entities over few keys with values 0..4096 bytes biased to shorter/longer overwrites, arbitrary-byte entity names, reopen between segments (real child processes for a subset).",
+         "Generated histories of Set/Get/Delete/KeysWithSuffix and SaveEntity/EntityWithName/DeleteEntity/Entities over few keys with values 0..4096 bytes biased to shorter/longer overwrites, arbitrary-byte entity names, reopen between segments (real child processes for a subset); shorter overwrites that are aligned proper prefixes; the caller overwrites every buffer it passed in once the call returned, overwrites or keeps (and re-checks after later operations) what it got back.",
          "assumes filename-safe raw storage keys (':' aliasing is documented by hc), entity names of length >= 1", "DESIGN.md §5 C18"),
  "C19": ("fault_enumeration", "fault injection: strace SIGKILL injection at every state-changing syscall of a storage operation, read-back oracle in a fresh process",
-         "For every scenario (Set old x new sizes, SaveEntity new/overwrite, DeleteEntity, Delete, NewIPTransport first start / unchanged restart / structural change) the baseline syscall trace is enumerated and the child is killed before each state-changing syscall on a fresh copy; the kill is confirmed from the trace; oracle: written key old-or-new in full, neighbours byte-identical, Entities() succeeds. Exhaustive per scenario for the syscall sequence the build under test performs.",
+         "For every scenario (Set old x new sizes, SaveEntity new/overwrite, DeleteEntity, Delete, NewIPTransport first start / unchanged restart / structural change) the baseline syscall trace is enumerated and the child is killed before each state-changing syscall on a fresh copy; the kill is confirmed from the trace; oracle: written key old-or-new in full, neighbours byte-identical, Entities() succeeds. Exhaustive per scenario for the syscall sequence the build under test performs. Plus a sampling scenario outside the enumeration: four goroutines writing the same keys, SIGKILL at a random moment (150 / 3000 kills), every key old-or-one-of-the-new values in full.",
          "covers process kills between file-system operations, not power loss or torn single writes; trusted base: strace 6.1", "DESIGN.md §5 C19"),
- "C01": ("exploration", "runtime monitoring: attacker histories against a real transport with refusal / no-disclosure (planted canaries) / no-change invariants checked after every request, EVENT fences, a legitimate controller interleaved",
-         "Generated histories (all sequences of length <= 2 over 26 operations, random ones up to 12 steps) on one or two attacker connections: plaintext requests to every protected endpoint, pair-setup / pair-verify fragments and forgeries, ciphertext under attacker-derivable keys; after every request: no 2xx, no canary or attribute token in the body, no value / callback / snapshot / stored-pairing change; final fence shows no EVENT on attacker connections; verification does not carry over.",
+ "C01": ("exploration", "runtime monitoring: attacker histories against a real transport with refusal / no-disclosure (planted canaries) / no-change invariants checked after every request, EVENT fences, a legitimate controller interleaved and, in a concurrent phase, simultaneous; Go race detector on that phase",
+         "Generated histories (all sequences of length <= 2 over 26 operations, random ones up to 12 steps) on one or two attacker connections: plaintext requests to every protected endpoint, pair-setup / pair-verify fragments and forgeries, ciphertext under attacker-derivable keys; after every request: no 2xx, no canary or attribute token in the body, no value / callback / snapshot / stored-pairing change; final fence shows no EVENT on attacker connections; verification does not carry over. Persistence histories (100 / 256 failed handshakes, then protected requests). Concurrent phase: 3 verified controllers and 4 unverified peers hammer the protected endpoints at the same time (every answer to an unverified peer a refusal, state unchanged), repeated in a -race child whose reports in Authenticate / context / session / endpoint / pair code are violations.",
          "trusted base: refctl; /identify is not counted as protected; the attacker model holds neither setup code nor paired key", "DESIGN.md §5 C01"),
  "C02": ("exploration", "runtime monitoring: message-sequence exploration of the pair-setup state machine with a database-snapshot invariant after every message (in-process controller and real transport)",
-         "Every sequence up to length 2 (quick) / 3 (thorough) over a 16-symbol core alphabet, critical prefixes x the full 26-symbol alphabet, random sequences of length 3..8 on one or two connections sharing a database; invariant: stored entities change only by a genuine key exchange of an exchange whose SRP proof the monitor itself completed.",
+         "Every sequence up to length 2 (quick) / 3 (thorough) over a 16-symbol core alphabet, critical prefixes x the full 26-symbol alphabet, random sequences of length 3..8 on one or two connections sharing a database; invariant: stored entities change only by a genuine key exchange of an exchange whose SRP proof the monitor itself completed. Persistence histories: K failed attempts (K in {3,100}; thorough up to 300, around the lock-out thresholds 100 and 256) followed by what a peer without the code can send and by an honest exchange.",
          "trusted base: refctl SRP/HKDF/AEAD use (self-tested); responses are not part of the verdict", "DESIGN.md §5 C02"),
  "C03": ("exploration", "runtime monitoring: message-sequence exploration of pair-verify at the endpoint (session state observed after every message) and on a real transport (plaintext / ciphertext probes); linearizability checking (porcupine) of recorded concurrent add / remove / pair-verify histories",
          "All sequences up to length 2 (quick) / 3 (thorough) over a 21-symbol alphabet plus random sequences, pairing sets of 0..3 controllers incl. a removed one, one or two connections; oracle: the session may become verified only by a finish that is genuine for the exchange opened by the last accepted start, every other message is answered with an error; full stack: plaintext still answered, ciphertext under peer-derived keys never served. Harness L: 40 (quick) / 1500 (thorough) rounds on fresh storage with pairings stored before the start, two administrator connections adding / replacing / removing pairings while four clients run complete pair-verifies, call/return times recorded at the client boundary, quiescent probe verifies at the end; the outcomes must be linearizable against a per-name register of the stored key (P-compositional, porcupine v1.3.0), schedules widened by delays at the storage.* hook points.",
@@ -45,10 +45,10 @@ CHECKS = {
          "Recipes (every accessory constructor, synthetic accessories from every service/characteristic constructor, linked/hidden/primary flags, explicit/automatic/colliding ids, up to 40 accessories) are built two or three times from scratch; ids unique, non-zero, deterministic; marshalled and served attribute database well-formed. Served size sweep: one database whose body takes every length of a contiguous range > 2*2048 bytes (all residues modulo the 2048-byte chunk and the 1024-byte frame).",
          "trusted base: encoding/json generic decoding, refctl for the served subset", "DESIGN.md §5 C14"),
  "C17": ("exploration", "runtime monitoring: differential testing of tlv8.Marshal against an independent reflect-based reference encoder, round-trip checking, decoder fuzzing under recover",
-         "Boundary battery and random values of all 23 rtp message types and 26 synthetic structs covering every field kind; oracle: Unmarshal(Marshal(v)) == v, Marshal(v) == reference encoding, arbitrary bytes decode without panic; root-cause attribution by single-field isolation.",
+         "Boundary battery and random values of all 23 rtp message types and 26 synthetic structs covering every field kind; oracle: Unmarshal(Marshal(v)) == v, Marshal(v) == reference encoding, arbitrary bytes decode without panic; Unmarshal leaves its input unchanged, its result does not alias the input and is not changed by later calls; root-cause attribution by single-field isolation.",
          "trusted base: the reference encoder in monitors/c17/refenc.go (written from the stated conventions)", "DESIGN.md §5 C17"),
  "C09": ("exploration", "runtime monitoring: value-fidelity differential over the whole constructor catalog through a real transport (set->GET /characteristics and /accessories, PUT->typed getter and callback), answer-shape oracle",
-         "Accessory databases built from all catalog constructors, from one accessory to a 150-accessory bridge (responses of hundreds of chunks and frames); values at bounds, non-rounding floats, hostile strings, tlv8 payloads to 5000 bytes; id lists of every length 1..60 with unknown, write-only and repeated ids; oracle: values equal after JSON/chunking/encryption, every id answered once in order with value or status, every entry of a 207 has a status.",
+         "Accessory databases built from all catalog constructors, from one accessory to a 150-accessory bridge (responses of hundreds of chunks and frames); values at bounds, non-rounding floats, hostile strings, tlv8 payloads to 5000 bytes; id lists of every length 1..60 with unknown, write-only and repeated ids; oracle: values equal after JSON/chunking/encryption, every id answered once in order with value or status, every entry of a 207 has a status and none carries a value together with an error status. Freshness phase: one change (application or a second controller) lands inside a GET /accessories of a 40-bulb bridge; reads that start after the change returned must show it through both endpoints.",
          "trusted base: refctl HTTP/chunk/frame parsing, encoding/json; PUT to an unknown id must not be answered as if applied (weak reading)", "DESIGN.md §5 C09"),
  "C11": ("exploration", "runtime monitoring: permission invariants over every catalog constructor and all 8 permission subsets x formats, in-process update API and HTTP PUT path, EVENT fences",
          "No pw => value unchanged and no callback for ~57 hostile values; no pr => no value stored or revealed in JSON, GET, /accessories, EVENT; no ev => subscription answered with a status and a fenced local change delivers no EVENT; positive controls for ev/pw/pr characteristics.",
@@ -63,7 +63,7 @@ CHECKS = {
          "3..5 verified controllers, 2..4 accessories, histories of 40 operations (subscribe, unsubscribe, local set, remote write changing / same value, combined PUT, value+ev in one entry for a read-only characteristic, close FIN/RST, reconnect, join via /pairings); after every operation every live connection is fenced and the EVENTs received are compared with the model; closed connections checked through hc's debug log after bounded progress; concurrent writers on distinct characteristics with connection churn checked offline for exactly-once and under -race (reports filtered to notifyListener / session / context).",
          "trusted base: refctl; hc writes EVENTs synchronously inside the changing call (the fence argument of DESIGN §3.4)", "DESIGN.md §5 C10"),
  "C13": ("exploration", "runtime monitoring: hostile-message fuzzing per protocol state against real transports in child processes; oracle = captured net/http panic log + well-formed (error) response + honest continuation on the same and on a new connection",
-         "Per case an honest prefix reaches one of six protocol states, then one hostile message of 63 classes (random bytes, structural TLV mutations of the correct next message, short / wrong-tag encrypted data, unknown steps / methods, hostile JSON, HTTP oddities, remote-address reuse) is sent; no panic line attributable to the request, a well-formed response that is an error when the message cannot be processed, and the state-appropriate honest handshake still succeeds on the same connection (at most one rejected start) and on a new one; 'no answer' by bounded progress; a dying child identifies its last logged input.",
+         "Per case an honest prefix reaches one of six protocol states, then one hostile message of 63 classes (random bytes, structural TLV mutations of the correct next message, short / wrong-tag encrypted data, unknown steps / methods, hostile JSON, HTTP oddities, remote-address reuse) is sent; no panic line attributable to the request, a well-formed response that is an error when the message cannot be processed, and the state-appropriate honest handshake still succeeds on the same connection (at most one rejected start) and on a new one; 'no answer' by bounded progress; a dying child identifies its last logged input. Stored oddities: pairings with keys of 0..1000 bytes stored through /pairings, then pair-verify naming each.",
          "trusted base: refctl; net/http's own 400/431 answers count as well-formed; 405 demanded only on the three endpoints that dispatch on the method", "DESIGN.md §5 C13 and §12.6"),
 }
 NOT_YET = {
